@@ -20,7 +20,9 @@ enum Kind {
 
 fn stage(r: &mut Rng, after_table: bool) -> (String, Kind) {
     match r.below(14) {
-        12 => ((*r.pick(&["parse \"* user=* took *ms status=*\" from msg as verb, user, ms, status", "parse \"took *ms\" from msg as took nodrop", "parse \"*\" from k as kk", "parse \"*\" from s as n"])).to_string(), Kind::Row),
+        12 => ((*r.pick(&["parse \"* user=* took *ms status=*\" from msg as verb, user, ms, status", "parse \"took *ms\" from msg as took nodrop", "parse \"*\" from k as kk"])).to_string(), Kind::Row),
+        // (not: `parse "*" from s as n` — s can be "NaN"/"inf", which become non-finite doubles that
+        // -o json prints as null: an intermediate table cannot be re-fed faithfully)
         13 => ((*r.pick(&["split(s) on \",\" as parts", "split(msg) on \" \" as words", "concat(k, \"-\", n) as kn", "length(s) as ls", "isNull(x) as nox"])).to_string(), Kind::Row),
         0 | 1 => (format!("where {}", gen::bool_expr(r, 1)), Kind::Row),
         2 => (format!("{} as {}", gen::num_expr(r, 1), r.pick(&["r", "v", "y"])), Kind::Row),
